@@ -557,3 +557,19 @@ def procStep (st0 : ProcEng) (t : Tokens) (impl : Option String) : ProcEng × St
     let f4 := f5 ++ if line == "processor-crashed" then ["C10 containment: a message from an agent terminated the processor goroutine (the worker exits, every buffered harvest is lost)"]
       else if line == "stuck" then ["C10 containment: the processor (or the listener) is wedged"] else []
     (st, { out with specFails := f4 ++ out.specFails ++ f0 ++ f1 ++ f2 ++ f3 })
+
+
+/-- engine `wire`, op `txnmetrics max=<n> name=<txn> m=<metrics>`: a Transaction message as the agent builds it, decoded by the
+real `aggregateMetrics` into a metric table of capacity `n`: each metric's own `forced` flag decides whether it is admitted
+once the table is full (C15: `MetricData.forced` decodes to what the agent wrote, per metric) -/
+def wireTxnMetricsStep (t : Tokens) (impl : Option String) : StepOut :=
+  let txn := parseTxn t
+  let max := ((kvGet t "max").bind String.toNat?).getD 0
+  let m := txn.metrics.foldl (fun (m : MTable) (x : TxnMetric) =>
+      let m := m.addRaw (x.name, "") x.d x.forced
+      if x.isScoped then m.addRaw (x.name, txn.name) x.d x.forced else m) (MTable.new max)
+  let model := s!"{canonMetrics m} dropped={m.dropped}"
+  { model := model, specFails := match impl with
+      | some line => if line == model then [] else
+          [s!"C15 wire: the metrics of a Transaction message decode to `{line}`; with each metric's own forced flag the table of capacity {max} holds `{model}`"]
+      | none => [] }
